@@ -85,6 +85,10 @@ def launch(spec, rounds):
                      "units": [I.feed_sum_kcals_equivalent.kcals_units, I.biofuels_sum_kcals_equivalent.kcals_units]}
         rec["charge"] = {"feed": ci.fl(tc["feed"].kcals), "biofuel": ci.fl(tc["biofuel"].kcals)}
         rec["csv_failures"] = ci.csv_check(path, rec["obs"], n)
+        try:
+            rec["csv_imm"] = ci.read_csv(path)[1].get("immediate_outdoor_crops")
+        except Exception:  # noqa  (a missing / unreadable file is already a csv failure)
+            rec["csv_imm"] = None
         # independent conversions of the extractor series by the implementation's own Food methods (for the split)
         rec["cr_ke"] = ci.fl(E.outdoor_crops_to_humans.in_units_kcals_equivalent().kcals)
         rec["cr_pct"] = ci.fl(E.outdoor_crops_to_humans.in_units_percent_fed().kcals)
@@ -255,6 +259,16 @@ def audit_round(rec):
             break
         if e_ns[m] < 0:
             fail("split", f"month {m}: new stored {e_ns[m]!r} negative")
+            break
+    # sign of the part eaten immediately: extractor series, unrounded percent, returned column, saved csv column
+    for label, series in (("extractor immediate_outdoor_crops (billion people fed)", e_imm),
+                          ("immediate_outdoor_crops percent (unrounded)", rec["imm_pct"]),
+                          ("immediate_outdoor_crops_kcals_equivalent", o["k"][7]),
+                          ("csv column immediate_outdoor_crops", rec.get("csv_imm") or [])):
+        negm = [m for m, x in enumerate(series) if x < 0]
+        if negm:
+            fail("crop-split-negative", f"{label} negative in {len(negm)} months, e.g. month {negm[0]}: {series[negm[0]]!r} "
+                                        f"(min {min(series)!r})")
             break
     sck = sc * 1e9 / pop * kd
     for m in range(n):
